@@ -147,45 +147,9 @@ def check_dfa_dot(text, dump, base, prefix_of=None):
                 used[i] = True
                 return at
         return None
-    sub_prefix = {}
-    for a, i, b in main['tr']:
-        inp = main['inputs'][i]
-        na, nb = '_%d' % (a + base), '_%d' % (b + base)
-        if inp['k'] != 'S':
-            at = take(na, nb, lambda at: at.get('style') != 'dashed' and label_ok(inp, at.get('label', '')))
-            if at is None:
-                probs.append('no edge %s -> %s whose label names %s' % (na, nb, {k: inp.get(k) for k in ('t', 'd', 'c', 'k')}))
-            continue
-        sub = dump['subs'][str(inp['sub'])]
-        # entry edge: from na to the nested start node of some cluster whose states fit
-        found = False
-        for pref, sg in cluster_by_prefix.items():
-            nodes = set(sg.nodes)
-            want_nodes = {'%s%d' % (pref, s + base) for s in states_of(sub)}
-            if nodes != want_nodes:
-                continue
-            entry = '%s%d' % (pref, sub['start'] + base)
-            if take(na, entry, lambda at: at.get('style') == 'dashed') is None:
-                continue
-            ok = True
-            for acc_state in sub['acc']:
-                ex = '%s%d' % (pref, acc_state + base)
-                if take(ex, nb, lambda at: at.get('style') == 'dashed') is None:
-                    ok = False
-                    probs.append('no dashed exit edge %s -> %s for the within-word expression leaving state %d' % (ex, nb, a))
-            found = True
-            sub_prefix[inp['sub']] = pref
-            break
-        if not found:
-            probs.append('within-word transition %s -> %s: no cluster with the nested automaton\'s states and a dashed entry edge to its start'
-                         % (na, nb))
-    leftovers = [(x, y) for i, (x, y, at) in enumerate(edges) if not used[i]]
-    if leftovers:
-        probs.append('edges that correspond to no transition: %s' % leftovers[:4])
-    # inside clusters: nested transitions
-    for subid, pref in sub_prefix.items():
-        sub = dump['subs'][str(subid)]
-        sg = cluster_by_prefix[pref]
+    def inner_problems(sub, pref, sg):
+        """The cluster drawn under this prefix against one nested automaton: states, shapes, transitions."""
+        out = []
         sedges = list(sg.edges)
         sused = [False] * len(sedges)
         for a, i, b in sub['tr']:
@@ -198,10 +162,83 @@ def check_dfa_dot(text, dump, base, prefix_of=None):
                     hit = True
                     break
             if not hit:
-                probs.append('cluster %s: no edge %s -> %s naming %s' % (sg.name, na, nb, inp.get('t') or inp.get('c') or inp['k']))
+                out.append('cluster %s: no edge %s -> %s naming %s' % (sg.name, na, nb, inp.get('t') or inp.get('c') or inp['k']))
+        if sum(1 for u in sused if not u):
+            out.append('cluster %s: %d edges that correspond to no nested transition' % (sg.name, sum(1 for u in sused if not u)))
         st = '%s%d' % (pref, sub['start'] + base)
         if sg.nodes.get(st, {}).get('shape') not in ('octagon', 'doubleoctagon', 'doublecircle'):
-            probs.append('cluster %s: start node %s is drawn as %s' % (sg.name, st, sg.nodes.get(st, {}).get('shape')))
+            out.append('cluster %s: start node %s is drawn as %s' % (sg.name, st, sg.nodes.get(st, {}).get('shape')))
+        for s_ in states_of(sub):
+            nid = '%s%d' % (pref, s_ + base)
+            drawn_acc = sg.nodes.get(nid, {}).get('shape') in ('doublecircle', 'doubleoctagon')
+            if drawn_acc != (s_ in sub['acc']):
+                out.append('cluster %s: node %s is drawn %s although the nested state is %s'
+                           % (sg.name, nid, 'accepting' if drawn_acc else 'non-accepting',
+                              'accepting' if s_ in sub['acc'] else 'not accepting'))
+        return out
+
+    # which cluster draws which nested automaton: the numbering of clusters is the emitter's own, so the
+    # association is found by content (states, shapes and transitions of the cluster), never by position
+    sub_ids = []
+    for a, i, b in main['tr']:
+        inp = main['inputs'][i]
+        if inp['k'] == 'S' and inp['sub'] not in sub_ids:
+            sub_ids.append(inp['sub'])
+    sub_prefix = {}
+    taken = set()
+    for subid in sub_ids:
+        sub = dump['subs'][str(subid)]
+        want_states = states_of(sub)
+        same_nodes = [(pref, sg) for pref, sg in cluster_by_prefix.items() if pref not in taken and
+                      set(sg.nodes) == {'%s%d' % (pref, s_ + base) for s_ in want_states}]
+        exact = [(pref, sg) for pref, sg in same_nodes if not inner_problems(sub, pref, sg)]
+
+        def outer_ok(pref):
+            for a, i, b in main['tr']:
+                if main['inputs'][i]['k'] != 'S' or main['inputs'][i]['sub'] != subid:
+                    continue
+                na, nb = '_%d' % (a + base), '_%d' % (b + base)
+                if not any(x == na and y == '%s%d' % (pref, sub['start'] + base) and at.get('style') == 'dashed'
+                           for x, y, at in edges):
+                    return False
+                for acc_state in sub['acc']:
+                    if not any(x == '%s%d' % (pref, acc_state + base) and y == nb and at.get('style') == 'dashed'
+                               for x, y, at in edges):
+                        return False
+            return True
+        pool = exact or same_nodes
+        best = [pref for pref, sg in pool if outer_ok(pref)]
+        if best:
+            sub_prefix[subid] = best[0]
+        elif pool:
+            sub_prefix[subid] = pool[0][0]
+        if subid in sub_prefix:
+            taken.add(sub_prefix[subid])
+            if not exact:
+                probs.extend(inner_problems(sub, sub_prefix[subid], cluster_by_prefix[sub_prefix[subid]]))
+    for a, i, b in main['tr']:
+        inp = main['inputs'][i]
+        na, nb = '_%d' % (a + base), '_%d' % (b + base)
+        if inp['k'] != 'S':
+            at = take(na, nb, lambda at: at.get('style') != 'dashed' and label_ok(inp, at.get('label', '')))
+            if at is None:
+                probs.append('no edge %s -> %s whose label names %s' % (na, nb, {k: inp.get(k) for k in ('t', 'd', 'c', 'k')}))
+            continue
+        sub = dump['subs'][str(inp['sub'])]
+        pref = sub_prefix.get(inp['sub'])
+        if pref is None:
+            probs.append('within-word transition %s -> %s: no cluster with the nested automaton\'s states' % (na, nb))
+            continue
+        entry = '%s%d' % (pref, sub['start'] + base)
+        if take(na, entry, lambda at: at.get('style') == 'dashed') is None:
+            probs.append('within-word transition %s -> %s: no dashed entry edge %s -> %s' % (na, nb, na, entry))
+        for acc_state in sub['acc']:
+            ex = '%s%d' % (pref, acc_state + base)
+            if take(ex, nb, lambda at: at.get('style') == 'dashed') is None:
+                probs.append('no dashed exit edge %s -> %s for the within-word expression leaving state %d' % (ex, nb, a))
+    leftovers = [(x, y) for i, (x, y, at) in enumerate(edges) if not used[i]]
+    if leftovers:
+        probs.append('edges that correspond to no transition: %s' % leftovers[:4])
     return probs
 
 
